@@ -6,6 +6,7 @@
 import Driver.Proto
 import PabuModel.Containers
 import Gen.Containers
+import PabuModel.CounterArith
 namespace Pabu.Driver
 open Pabu.Containers
 
@@ -15,5 +16,34 @@ def cmdOps (a : Args) : String :=
   | some r =>
     let ops := splitNE (a.get "O") ","
     "ok " ++ String.intercalate "," (ops.map (fun op => if predict Pabu.Gen.containerRows r op then "1" else "0"))
+
+/-- `counter op=add|sub|or|and|pos|neg A=k:n,k:n,… B=k:n,… [V=k.k.k]`: the arithmetic of `collections.Counter` on counters given in
+    insertion order (keys are numbers, counts any integers); answers `ok k:n,k:n,…` in the order of the result.  With `V=` (the keys
+    of the right ballot type) the answer is that of the re-validating wrapper: `err type` if the result holds any other key. -/
+def parseCounter (s : String) : Pabu.CounterArith.Counter Nat :=
+  (splitNE s ",").map (fun t => match t.splitOn ":" with
+    | [k, n] => (natD k, (n.toInt?).getD 0)
+    | _ => (0, 0))
+
+def showCounter (c : Pabu.CounterArith.Counter Nat) : String :=
+  if c.isEmpty then "-" else String.intercalate "," (c.map (fun e => s!"{e.1}:{e.2}"))
+
+def cmdCounter (a : Args) : String :=
+  let A := parseCounter (a.get "A")
+  let B := parseCounter (a.get "B")
+  let r : Pabu.CounterArith.Counter Nat :=
+    match a.get "op" with
+    | "add" => Pabu.CounterArith.add A B
+    | "sub" => Pabu.CounterArith.sub A B
+    | "or" => Pabu.CounterArith.union A B
+    | "and" => Pabu.CounterArith.inter A B
+    | "pos" => Pabu.CounterArith.pos A
+    | _ => Pabu.CounterArith.neg A
+  if a.has "V" then
+    let ok := parseIds (a.get "V")
+    match Pabu.CounterArith.validate (fun k => ok.contains k) r with
+    | .ok r => "ok " ++ showCounter r
+    | .error e => "err " ++ e.toString
+  else "ok " ++ showCounter r
 
 end Pabu.Driver
